@@ -8,7 +8,13 @@ Theorems: lean/I18nVerif/Theorems/C18.lean.
       directly with the documented options and the locale being rendered (harness fmt_h);
 (iii) history independence: random request sequences in one process vs every request as the first request of a fresh
       process, and vs the Lean cache model's prediction of the key served (`fmt.cache`);
-(iv)  16 threads racing on first use (support only)."""
+(iv)  16 threads racing on first use (support only);
+(v)   custom ICU data provider: the same formatting requests, the compiled-in table (six macro flavours) and a small
+      `load_locales!` project (formatter and plural keys) served by harness fmt_np_h, which builds leptos_i18n WITHOUT
+      `icu_compiled_data` (own target dir harness/target-np) and installs, with `set_icu_data_provider`, a provider that
+      forwards each of the nine `IcuDataProvider` methods to the ICU4X constructor of that meaning and records the call:
+      outputs vs ICU4X called directly, and recorded constructor calls vs the (constructor, locale, options) the
+      requests denote (each exactly once).  Violation signatures start with `custom-provider:`."""
 import html
 import itertools
 import re
@@ -23,7 +29,11 @@ RULE = ("(i) exhaustive product, both tiers: six formatter names x per option "
         "value sets (integers of every width and sign, floats, decimals with trailing zeros, dates from year -44 to "
         "9999, times, lists of 0..6 items incl. HTML-special and non-ASCII items) + the 62-entry compiled-in table x 8 "
         "locales x 2 values x 6 macro flavours; (iii) random sequences of 24..40 requests from a pool, each sequence in "
-        "one process; (iv) 16 threads x first use; non-trivial = clause with at least one argument / output differing "
+        "one process; (iv) 16 threads x first use; (v) build without icu_compiled_data + recording custom provider: "
+        "8 locales x 6 kinds x every renderable option combination (all but time_length full|long) x the value sets of (ii), "
+        "every renderable entry of the compiled-in table x 8 locales x 2 values x 6 macro flavours, 12 formatter keys of a "
+        "load_locales! project x 4 locales x 2 values x {td_string!, td_display!}, cardinal and ordinal plural keys x 4 locales "
+        "x 35 boundary counts + random counts, and the set of constructor calls the provider received; non-trivial = clause with at least one argument / output differing "
         "from the raw value; distinct = distinct cases")
 
 NAMES = ["number", "currency", "date", "time", "datetime", "list"]
@@ -425,35 +435,53 @@ def fmt_key(req):
 REFUSED_SIG = "documented-option-unrenderable:time_length"
 
 
-def judge_format(ctx, req, r, where):
+def judge_format(ctx, req, r, where, prefix=""):
     """impl vs oracle for one `format` answer: True (equal), "refused" (ICU4X refuses the options and the implementation
-    panics: known finding), False (violation reported)"""
+    panics: known finding), False (violation reported).  `prefix` is put in front of every violation signature
+    (`custom-provider:` for the build without compiled data)"""
     if not isinstance(r, dict) or ("oracle" not in r and "oracle_err" not in r):
-        report_violation(ctx, "formatting-fails", {"request": req, "implementation": r, "expected_by_spec": "ICU4X output", "harness": where})
+        report_violation(ctx, prefix + "formatting-fails", {"request": req, "implementation": r, "expected_by_spec": "ICU4X output", "harness": where})
         return False
     if "oracle_err" in r:
         if "impl_panic" in r:
             # no ICU4X output exists for these options; the implementation panics on first use (and on every use)
-            report_violation(ctx, REFUSED_SIG if req["f"] in ("time", "datetime") and req.get("t") in ("full", "long") else
-                             "documented-option-unrenderable:" + req["f"], {
+            report_violation(ctx, prefix + (REFUSED_SIG if req["f"] in ("time", "datetime") and req.get("t") in ("full", "long") else
+                                            "documented-option-unrenderable:" + req["f"]), {
                 "request": req, "icu4x": r["oracle_err"], "implementation": {"panic": r["impl_panic"]},
                 "expected_by_spec": "a documented option value can be rendered (ICU4X refuses to build this formatter)", "harness": where})
             return "refused"
-        report_violation(ctx, "output-where-icu4x-refuses", {"request": req, "icu4x": r["oracle_err"], "implementation": impl_fields(r),
+        report_violation(ctx, prefix + "output-where-icu4x-refuses", {"request": req, "icu4x": r["oracle_err"], "implementation": impl_fields(r),
                                                              "expected_by_spec": "no output", "harness": where})
         return False
     if "impl_panic" in r:
-        report_violation(ctx, "formatting-panics:" + req["f"], {
+        report_violation(ctx, prefix + "formatting-panics:" + req["f"], {
             "request": req, "expected_by_spec": r["oracle"], "implementation": {"panic": r["impl_panic"]}, "harness": where})
         return False
     got = {"display": r["display"], "formatter": r["formatter"], "view": norm_view(r["view"], r["oracle"])}
     bad = {k: v for k, v in got.items() if v != r["oracle"]}
     if bad:
-        report_violation(ctx, "output-differs-from-icu4x:" + req["f"], {
+        report_violation(ctx, prefix + "output-differs-from-icu4x:" + req["f"], {
             "request": req, "expected_by_spec": r["oracle"], "implementation": bad,
             "harness": where + " (leptos_i18n::__private::format_*_to_{display,formatter,view} vs ICU4X called directly)"})
         return False
     return True
+
+
+TABLE_VALS = {"number": [{"t": "dec", "v": "2000.50"}, {"t": "i64", "v": "-1234567"}],
+              "currency": [{"t": "dec", "v": "2000.50"}, {"t": "u64", "v": "1234567"}],
+              "date": [DATES[0], DATES[1]], "time": [TIMES[1], TIMES[0]],
+              "datetime": [DATES[0] + TIMES[1], DATES[1] + TIMES[3]], "list": [LISTS[3], LISTS[5]]}
+
+
+def clause_spec_req(clause):
+    """Lean request giving the documented options (`specFormatter`) of a clause `name` / `name(opt: value; ..)`"""
+    m = re.match(r"^\s*([a-z_]+)\s*(?:\((.*)\))?\s*$", clause, re.S)
+    if not m:
+        raise HarnessError("cannot read formatter clause " + clause)
+    args = None
+    if m.group(2) is not None:
+        args = [[a.strip(), b.strip()] for a, b in (seg.split(":", 1) for seg in m.group(2).split(";") if ":" in seg)]
+    return {"op": "fmt.spec", "name": m.group(1), "args": args}
 
 
 def check_formatting(ctx, binf, binp):
@@ -479,20 +507,8 @@ def check_formatting(ctx, binf, binp):
     table, _ = run_lines(binf, [{"op": "table"}])
     table = table[0]
     impl = run_lines_resilient(binp, [{"op": "parse_new", "s": e["file"]} for e in table])
-    sreqs = []
-    for e in table:
-        m = re.match(r"^\s*([a-z_]+)\s*(?:\((.*)\))?\s*$", e["tf"], re.S)
-        if not m:
-            raise HarnessError("cannot read t_format tokens " + e["tf"])
-        args = None
-        if m.group(2) is not None:
-            args = [[a.strip(), b.strip()] for a, b in (seg.split(":", 1) for seg in m.group(2).split(";") if ":" in seg)]
-        sreqs.append({"op": "fmt.spec", "name": m.group(1), "args": args})
-    tf_spec = lean_driver(sreqs)
-    vals = {"number": [{"t": "dec", "v": "2000.50"}, {"t": "i64", "v": "-1234567"}],
-            "currency": [{"t": "dec", "v": "2000.50"}, {"t": "u64", "v": "1234567"}],
-            "date": [DATES[0], DATES[1]], "time": [TIMES[1], TIMES[0]],
-            "datetime": [DATES[0] + TIMES[1], DATES[1] + TIMES[3]], "list": [LISTS[3], LISTS[5]]}
+    tf_spec = lean_driver([clause_spec_req(e["tf"]) for e in table])
+    vals = TABLE_VALS
     treqs, oreqs, meta = [], [], []
     for e, r, ts in zip(table, impl, tf_spec):
         var = find_var(r.get("ok")) if isinstance(r, dict) else None
@@ -702,6 +718,197 @@ def check_race(ctx, binf, pool):
     ctx.extra["race_bad"] = bad
 
 
+# ----------------------------------------------------------------------------- custom ICU data provider
+
+NP = "custom-provider:"
+NP_WHERE = "fmt_np_h (leptos_i18n built WITHOUT icu_compiled_data; provider installed with set_icu_data_provider)"
+NP_PROJECT_LOCALES = ["en", "fr", "ru", "ar"]
+NP_COUNTS = [0, 1, 2, 3, 4, 5, 6, 7, 8, 9, 10, 11, 12, 13, 14, 19, 20, 21, 22, 23, 24, 25, 99, 100, 101, 102, 103, 111, 112, 113,
+             1000, 1001, 1000000, 2000000, 18446744073709551615]
+NP_METHODS = ["num", "currency", "date", "time", "datetime", "and_list", "or_list", "unit_list", "plural"]
+
+
+def unrenderable(o):
+    """options of the known finding C18-zone (no ICU4X output exists)"""
+    return o.get("f") in ("time", "datetime") and o.get("t") in ("full", "long")
+
+
+def provider_call(loc, o):
+    """the constructor call a custom provider must receive for (locale, documented options): [method, data locale, options]"""
+    f = o["f"]
+    if f == "number":
+        return ("num", loc, (o["g"],))
+    if f == "currency":
+        return ("currency", loc, (o["w"],))      # the currency code is an argument of `format`, not of the constructor
+    if f == "date":
+        return ("date", loc, (o["d"],))
+    if f == "time":
+        return ("time", loc, (o["t"],))
+    if f == "datetime":
+        return ("datetime", loc, (o["d"], o["t"]))
+    if f == "list":
+        return (o["ty"] + "_list", loc, (o["st"],))
+    raise HarnessError("provider_call: " + json.dumps(o))
+
+
+def check_custom_provider(ctx, table=None, table_opts=None):
+    """the build applications with their own ICU data use: leptos_i18n without `icu_compiled_data`, every formatter
+    constructed by the provider given to `set_icu_data_provider` (harness fmt_np_h: a provider that forwards each trait
+    method to the ICU4X constructor of that meaning, with ICU4X's compiled data, and records the call).  Every output
+    must equal ICU4X called directly for the locale and the documented options, and the provider must have been asked
+    exactly once for exactly the (constructor, locale, options) the requests denote."""
+    binn = cargo_build(ctx, "fmt_np_h", variant="np")
+    if binn is None:
+        return
+    rng = ctx.rng.fork()
+    head, crash = run_lines(binn, [{"op": "locales"}, {"op": "table"}, {"op": "provider_log"}])
+    if crash or len(head) != 3:
+        raise HarnessError("fmt_np_h does not start: " + json.dumps(crash))
+    if head[0] != LOCALES or head[2].get("project_locales") != NP_PROJECT_LOCALES or head[2].get("calls") != []:
+        raise HarnessError("fmt_np_h locales / initial provider log differ from the check's: " + json.dumps([head[0], head[2]]))
+    if table is None:
+        table = head[1]
+        table_opts = {e["key"]: r["spec"] for e, r in zip(table, lean_driver([clause_spec_req(e["tf"]) for e in table]))}
+    elif head[1] != table:
+        raise HarnessError("fmt_np_h serves another table than fmt_h")
+
+    reqs, meta = [], []       # meta: (part, request whose documented options are `opts`, opts, index of the oracle request or None)
+
+    def add(part, q, opts=None, extra=None):
+        reqs.append(q)
+        meta.append((part, opts, extra))
+        return len(reqs) - 1
+
+    # (a) the helpers, every kind x locale x renderable option combination x value set
+    for kind in NAMES:
+        vals = values_for(ctx, kind, rng)
+        for loc in LOCALES:
+            for o in option_combos(kind):
+                if unrenderable(dict(o, f=kind)):
+                    continue
+                for v in vals:
+                    q = dict({"op": "format", "locale": loc, "f": kind, "value": v}, **o)
+                    add("format", q, q)
+    # (b) the compiled-in table: declare_locales! keys and td_format*! literals, six macro flavours
+    for e in table:
+        opts = table_opts[e["key"]]
+        if opts is None:
+            raise HarnessError("table entry without documented options: " + json.dumps(e))
+        if unrenderable(opts):
+            continue
+        for loc in LOCALES:
+            for v in TABLE_VALS[e["kind"]]:
+                oi = add("oracle", dict({"op": "format", "locale": loc, "value": v}, **opts), opts)
+                add("table", {"op": "table_format", "locale": loc, "kind": e["kind"], "key": e["key"], "value": v}, opts, (e, oi))
+    # (c) the small load_locales! project of the harness (locales/*.json): td_string! / td_display! of formatter keys, plural keys
+    pdir = os.path.join(HARNESS_DIR, "fmt_np_h", "locales")
+    files = {l: json.load(open(os.path.join(pdir, l + ".json"), encoding="utf-8")) for l in NP_PROJECT_LOCALES}
+    pkeys = [(k, re.match(r"^\{\{\s*v\s*,\s*(.*?)\s*\}\}$", v, re.S)) for k, v in files["en"].items()]
+    pkeys = [(k, m.group(1)) for k, m in pkeys if m]
+    pspecs = [r["spec"] for r in lean_driver([clause_spec_req(c) for _, c in pkeys])]
+    for (k, clause), opts in zip(pkeys, pspecs):
+        if opts is None or any(files[l].get(k) != files["en"][k] for l in NP_PROJECT_LOCALES):
+            raise HarnessError("fmt_np_h project key is not the same formatter clause in every locale: " + k)
+        for loc in NP_PROJECT_LOCALES:
+            for v in TABLE_VALS[opts["f"]]:
+                oi = add("oracle", dict({"op": "format", "locale": loc, "value": v}, **opts), opts)
+                add("project", {"op": "project", "locale": loc, "key": k, "value": v}, opts, ({"key": k, "file": files["en"][k]}, oi))
+    counts = NP_COUNTS + [rng.below(10 ** rng.range(1, 9)) for _ in range(ctx.budget(10, 200))]
+    for loc in NP_PROJECT_LOCALES:
+        for rule in ("cardinal", "ordinal"):
+            for n in counts:
+                add("plural", {"op": "plural", "locale": loc, "rule": rule, "n": n}, None, ("plural", loc, (rule,)))
+    log_at = add("log", {"op": "provider_log"})
+
+    outs, crash = run_lines(binn, reqs, stall=STALL)
+    if crash is not None or len(outs) != len(reqs):
+        k = min(len(outs), len(reqs) - 1)
+        report_violation(ctx, NP + "harness-crashes", {"request": reqs[k], "implementation": crash, "expected_by_spec": "an answer", "harness": NP_WHERE})
+        return
+    expected_calls = {}
+    n = {"format": 0, "table": 0, "project": 0, "plural": 0}
+    for q, (part, opts, extra), r in zip(reqs, meta, outs):
+        if part in ("oracle", "log"):
+            # the oracle side of a `format` answer is ICU4X alone; its implementation side is one more request of the same key
+            if part == "oracle":
+                expected_calls.setdefault(provider_call(q["locale"], opts), q)
+            continue
+        n[part] += 1
+        if part == "format":
+            raw = q["value"]["v"] if isinstance(q["value"], dict) else None
+            ok = judge_format(ctx, q, r, NP_WHERE + " format", prefix=NP)
+            ctx.seen({"np": q}, nontrivial=ok is True and r["oracle"] != raw)
+            ctx.count("custom_provider:format:" + q["f"])
+            expected_calls.setdefault(provider_call(q["locale"], opts), q)
+            if ok is True and q["f"] == "list" and q["ty"] == "or" and q["locale"] == "fr" and len(q["value"]) == 3 and len(ctx.samples) < 6:
+                ctx.sample({"custom_provider_request": q, "output": r["display"]})
+            continue
+        if part == "plural":
+            ctx.seen({"np": q}, nontrivial=True)
+            ctx.count("custom_provider:plural:" + q["rule"])
+            expected_calls.setdefault(extra, q)
+            # the `rank` key of ru / ar is a plain string (their ordinal rules have the single category `other`)
+            if not isinstance(r, dict) or "oracle" not in r or r.get("impl") != r["oracle"] or r.get("string") != r["oracle"]:
+                report_violation(ctx, NP + "plural-category", {
+                    "request": q, "expected_by_spec": r.get("oracle") if isinstance(r, dict) else None, "implementation": r,
+                    "why": "get_plural_rules(locale, rule).category_for(n) and the form td_string! renders for the keys `items` / `rank` "
+                           "(each form's text is its category name) vs icu_plurals::PluralRules::try_new(locale, rule) called directly",
+                    "harness": NP_WHERE + " plural"})
+            continue
+        e, oi = extra
+        orr = outs[oi]
+        ctx.seen({"np": q}, nontrivial=True)
+        ctx.count("custom_provider:" + part + ":" + opts["f"])
+        if not isinstance(orr, dict) or "oracle" not in orr:
+            raise HarnessError("fmt_np_h: ICU4X gives no output for renderable options " + json.dumps(reqs[oi]) + ": " + json.dumps(orr))
+        judge_format(ctx, reqs[oi], orr, NP_WHERE + " format", prefix=NP)
+        want = orr["oracle"]
+        if not isinstance(r, dict) or "string" not in r:
+            report_violation(ctx, NP + "formatting-fails", {"request": q, "translation": e["file"], "implementation": r,
+                                                            "expected_by_spec": want, "harness": NP_WHERE})
+            continue
+        got = {k: (norm_view(v, want) if k.endswith("view") else v) for k, v in r.items()}
+        bad_file = {k: v for k, v in got.items() if not k.startswith("tf_") and v != want}
+        bad_tf = {k: v for k, v in got.items() if k.startswith("tf_") and v != want}
+        if bad_file:
+            report_violation(ctx, NP + ("file-path-output:" if part == "table" else "project-output:") + opts["f"], {
+                "translation": e["file"], "request": q, "documented_options": reqs[oi], "expected_by_spec": want, "implementation": bad_file,
+                "harness": NP_WHERE + (" table_format: declare_locales! + td_string!/td_display!/td!" if part == "table" else
+                                       " project: load_locales! (locales/*.json) + td_string!/td_display!") +
+                           " vs ICU4X called directly with the documented options"})
+        if bad_tf:
+            report_violation(ctx, NP + "t_format-output:" + opts["f"], {
+                "macro": "td_format*!(.., formatter: " + e["tf"] + ")", "request": q, "documented_options": reqs[oi],
+                "expected_by_spec": want, "implementation": bad_tf, "harness": NP_WHERE + " table_format"})
+
+    # ---- what the provider was asked for
+    calls = [(c["m"], c["locale"], tuple(c["opts"])) for c in outs[log_at]["calls"]]
+    if not calls:
+        raise HarnessError("fmt_np_h: the installed provider was never called although formatters were served: "
+                           "leptos_i18n was built with icu_compiled_data (feature unification?)")
+    by_method = {}
+    for c in calls:
+        by_method[c[0]] = by_method.get(c[0], 0) + 1
+    missing = [k for k in expected_calls if k not in calls]
+    unexpected = sorted(set(c for c in calls if c not in expected_calls))
+    repeated = sorted(set(c for c in calls if calls.count(c) > 1))
+    if missing or unexpected or repeated:
+        first = missing[0] if missing else None
+        report_violation(ctx, NP + "constructor-calls", {
+            "request": expected_calls[first] if first else None,
+            "expected_by_spec": {"provider_call": first, "rule": "the provider is asked exactly once for each (constructor, data locale, options) "
+                                 "the requests denote, and for nothing else"},
+            "implementation": {"never_asked_for": missing[:10], "asked_for_instead": unexpected[:10], "asked_more_than_once": repeated[:10]},
+            "harness": NP_WHERE + " provider_log"})
+    elif sorted(by_method) != sorted(NP_METHODS):
+        raise HarnessError("custom provider: not every IcuDataProvider method was exercised: " + json.dumps(by_method))
+    ctx.count("custom_provider:constructor_calls", len(calls))
+    ctx.extra["custom_provider"] = {
+        "format_requests": n["format"], "table_requests": n["table"], "table_flavours": 6, "project_requests": n["project"],
+        "plural_requests": n["plural"], "provider_calls": len(calls), "provider_calls_by_method": by_method,
+        "distinct_expected_calls": len(expected_calls)}
+
+
 def run(ctx):
     lean_check(ctx, "I18nVerif.Theorems.C18", "C18_")
     binp = cargo_build(ctx, "parser_h")
@@ -718,6 +925,7 @@ def run(ctx):
     check_format_views(ctx)
     check_docs(ctx)
     table, table_opts = check_formatting(ctx, binf, binp)
+    check_custom_provider(ctx, table, table_opts)
     pool = check_history(ctx, binf, table, table_opts)
     check_race(ctx, binf, pool)
     ctx.assumptions += [
@@ -730,8 +938,17 @@ def run(ctx):
         "compiled-in table (62 option combinations x 6 macro flavours x 8 locales), not by a theorem",
         "the harness maps option words to ICU option values by name (trusted, 7 small matches); the macro crate's own "
         "mapping is exercised by the table path",
+        "custom provider (fmt_np_h): the provider handed to set_icu_data_provider is the harness's own (trusted, nine one-line "
+        "methods: try_new_num_formatter -> FixedDecimalFormatter::try_new, _date_ -> DateFormatter::try_new_with_length, _time_ -> "
+        "TimeFormatter::try_new_with_length, _datetime_ -> DateTimeFormatter::try_new, _and/_or/_unit_list_ -> "
+        "ListFormatter::try_new_{and,or,unit}_with_length, _plural_rules -> PluralRules::try_new, _currency_ -> "
+        "CurrencyFormatter::try_new, all with ICU4X's compiled data); the oracle calls the same ICU4X constructors directly, so "
+        "what is checked is the forwarding impl of BakedDataProvider, the cache in front of it and the generated code, "
+        "not ICU4X data; the derive macro `#[derive(IcuDataProvider)]` (needs a datagen-baked provider) is not exercised; "
+        "time_length full|long (known finding C18-zone) is left out of part (v)",
     ]
-    ctx.notes += ["impl vs spec: option selection (exhaustive product), outputs vs ICU4X, history/race vs fresh process",
+    ctx.notes += ["impl vs spec: option selection (exhaustive product), outputs vs ICU4X, history/race vs fresh process, "
+                  "custom-provider build: outputs vs ICU4X and provider constructor calls vs the requests' (constructor, locale, options)",
                   "impl vs model: parse_new trees equal for every generated clause incl. malformed ones",
                   "model vs spec: fmt.src (parseFormatter on the printed clause vs specFormatter) and fmt.cache invariants"]
     finish_broken(ctx, "all selection / formatting / history cases, impl vs spec on each")
